@@ -57,10 +57,11 @@ XAgain ==
   /\ Len(h) < MaxSteps /\ Len(h) > 0 /\ h[Len(h)].op \in {"answer", "again"}
   \* up to three further calls on the same request
   /\ (Len(h) > 3 => ~(h[Len(h)].op = "again" /\ h[Len(h) - 1].op = "again" /\ h[Len(h) - 2].op = "again"))
-  /\ \E pl \in Payloads(s.p, Node(s.p, h[Len(h)].node)) :
-        /\ (h[Len(h)].op = "answer" => pl # h[Len(h)].vars)
+  \* (with another payload, or carrying an error: neither may show)
+  /\ \E pl \in Payloads(s.p, Node(s.p, h[Len(h)].node)), kd \in (IF "err" \in Features THEN {"", "err"} ELSE {""}) :
+        /\ (h[Len(h)].op = "answer" /\ kd = "" => pl # h[Len(h)].vars)
         /\ h' = Append(h, [op |-> "again", node |-> h[Len(h)].node, occ |-> h[Len(h)].occ, vars |-> pl,
-                           kind |-> "", n |-> 0, cands |-> <<>>, evs |-> <<>>, pre |-> Cnt(s)])
+                           kind |-> kd, n |-> 0, cands |-> <<>>, evs |-> <<>>, pre |-> Cnt(s)])
   /\ UNCHANGED s
 
 \* several first answers issued concurrently: exactly one takes effect.  The
